@@ -186,10 +186,26 @@ def opMatrixPlan (j : Json) : Except String Json := do
     ("plan", Json.arr (plan.map fun r => Json.arr #[Json.num r.1, Json.num r.2.1, Json.num r.2.2]).toArray),
     ("writes", Json.arr writes.toArray), ("condensed", Json.arr cidx.toArray)]
 
+/-- op "bounds": Euclidean distance (internal sum) and LB_Keogh (internal sum) on integer series -/
+def opBounds (j : Json) : Except String Json := do
+  let s ← rawSettings j
+  let s1 ← getIntArr j "s1"
+  let s2 ← getIntArr j "s2"
+  let r := s1.size / s.ndim
+  let c := s2.size / s.ndim
+  let g := s.toGridPy r c s1 s2
+  let ed : Cost := edSum g.cost r c
+  let w := match s.window with | none => max r c | some 0 => max r c | some w => w
+  let lb : Nat := match s.inner with
+    | .sq => lbKeogh (fun a b => (a - b).natAbs ^ 2) s1 s2 r c w
+    | .abs => lbKeogh (fun a b => (a - b).natAbs) s1 s2 r c w
+  return Json.mkObj [("ed", costJ ed), ("lb", Json.num (s.scale * lb))]
+
 def dispatch (j : Json) : Except String Json := do
   let op ← (j.getObjVal? "op") >>= (·.getStr?)
   let res ← match op with
     | "dtw" => opDtw j
+    | "bounds" => opBounds j
     | "path" => opPath j
     | "matrixplan" => opMatrixPlan j
     | "parts" => opParts j
